@@ -523,6 +523,81 @@ func checkAll[T cmp.Ordered](c *specCtx, f *fam[T], s []T, small [][]T) {
 			specViol("Concat", "concat of one part is not that part", in, g, s)
 		}
 	})
+	// arguments that are overlapping views of one array with spare capacity (what PopLast, Take or a
+	// Go sub-slice hand out): the result must still be computed from the values the arguments
+	// had at the call
+	if n >= 1 && n <= 6 {
+		fresh := func() []T {
+			b := make([]T, n, n+4)
+			copy(b, sOrig)
+			return b
+		}
+		cat := func(parts ...[]T) []T {
+			var w []T
+			for _, p := range parts {
+				w = append(w, p...)
+			}
+			return w
+		}
+		for k := 0; k <= n; k++ {
+			k := k
+			for _, t := range small {
+				if len(t) > 2 {
+					continue
+				}
+				t := t
+				guard("Concat", in, func() {
+					c.ev("Concat", true)
+					base := fresh()
+					p := base[:k]
+					want := cat(p, t, base)
+					if g := slice.Concat([][]T{p, t, base}); !eqS(g, want) {
+						specViol("Concat", "overlapping views: parts not concatenated in order", fmt.Sprintf("[%v (cap %d); %v; %v]", sOrig[:k], cap(p), t, sOrig), g, want)
+					}
+					c.ev("Concat", true)
+					base = fresh()
+					p = base[:k]
+					want = cat(p, t, base[k:])
+					if g := slice.Concat([][]T{{}, p, t, base[k:]}); !eqS(g, want) {
+						specViol("Concat", "overlapping views after an empty part: parts not concatenated in order", fmt.Sprintf("[[]; %v (cap %d); %v; %v]", sOrig[:k], cap(p), t, sOrig[k:]), g, want)
+					}
+				})
+				guard("Append", in, func() {
+					c.ev("Append", true)
+					base := fresh()
+					p := base[:k]
+					want := cat(p, base)
+					if g := slice.Append(p, base); !eqS(g, want) {
+						specViol("Append", "overlapping views: not s1 followed by s2", fmt.Sprintf("%v (cap %d) %v", sOrig[:k], cap(p), sOrig), g, want)
+					}
+					c.ev("Append", true)
+					base = fresh()
+					p = base[:k]
+					want = cat(cat(p, t), base[k:])
+					if g := slice.Append(slice.Append(p, t), base[k:]); !eqS(g, want) {
+						specViol("Append", "overlapping views: (s1 ++ t) ++ rest", fmt.Sprintf("%v (cap %d) %v %v", sOrig[:k], cap(p), t, sOrig[k:]), g, want)
+					}
+				})
+			}
+			guard("Collect", in, func() {
+				c.ev("Collect", true)
+				base := fresh()
+				// the function returns prefixes of one shared array, the first one with spare capacity
+				idx := 0
+				cf := func(e T) []T {
+					idx++
+					return base[:(k+idx-1)%(n+1)]
+				}
+				var want []T
+				for i := 0; i < n; i++ {
+					want = append(want, sOrig[:(k+i)%(n+1)]...)
+				}
+				if g := slice.Collect(cf, s); !eqS(g, want) {
+					specViol("Collect", "function results that share an array: not concatenated in order", fmt.Sprintf("%v, f_i = prefix of length (%d+i) mod %d", sOrig, k, n+1), g, want)
+				}
+			})
+		}
+	}
 	if !eqS(s, sOrig) {
 		specViol("(any)", "input slice changed during the checks", sOrig, s, sOrig)
 	}
